@@ -543,11 +543,13 @@ def captured(ctx: Ctx) -> list[tuple[str, str, str, bytes, t.Any]]:
 
             sys.setprofile(prof)
             try:
-                fn()
+                with taps.StepMeter(_PREFIX[0], 300000):     # the tests call the real codec: keep a broken tree from hanging us
+                    fn()
             except BaseException:  # noqa  (a mutated tree fails its own tests; the literals are still captured)
                 pass
             finally:
                 sys.setprofile(None)
+                sys.settrace(None)
             if isinstance(cap.get("expected"), bytes) and cap.get("msg") is not None:
                 out.append((f"{p.stem}.{name}", k, "pack", cap["expected"], cap["msg"]))
             elif isinstance(cap.get("data"), bytes):
